@@ -44,6 +44,10 @@ def gen(rng, i):
 def run(ck):
     quick = ck.tier == "quick"
     rng = random.Random(ck.seed)
+    # (a submitter of a blocking throttle re-checks the queue as long as the shared event is set; under an unfair schedule
+    #  that never lets the hand-over thread clear it, this exhausts the step budget: the prefix is judged.  A thread that
+    #  spins while nobody else CAN run is reported by the engine as blocked - that one is a verdict)
+    ck.allow_truncation = True
     # lock-order cycles inside one component are deadlock states of the component models
     ck.mc("CancelOnShutdown", "CancelOnShutdown.mc.cfg", timeout=3000)
     ck.mc("WorkerLoop", "WorkerLoop.mc.cfg", timeout=3000)
